@@ -1,7 +1,8 @@
 \* C10 - exhaustive instance of Decode, REPAIRED model (the prescription the harness replays).
 \*   all 8 transports x their slots x every class of the slot (no bound: the space is finite)
-\* Measured: 180 inputs, 1,003 distinct states, depth 7, < 2 s; every action except the two
-\* deviation actions (disabled by the constants) is taken.
+\* Measured: 281 inputs, 1,121 distinct states (1,402 generated), depth 7, 2 s with -workers 1 (the Export
+\* action constraint prints one line per input and needs -workers 1); every action except the deviation
+\* action NilDeref (disabled by FixNull) is taken.
 CONSTANTS
   FixNull = TRUE
   FixInit = TRUE
